@@ -1198,7 +1198,14 @@ class Executor:
         if not is_z3(val):
             raise Unsupported("comprehension element not scalar")
         es = "real" if is_real(val) else ("bool" if is_bool(val) else "int")
-        arr = fresh("comp", z3.ArraySort(I, sort_of(es)))
+        # the same comprehension over the same sequence denotes the same array (so that a specification that repeats the
+        # expression of the code talks about the same values): memoised on the element term and the length
+        key = ("comp", z3.substitute(val, (t, z3.Int("t!compkey"))).sexpr(), z3.simplify(seq.n).sexpr(), es)
+        memo = self.__dict__.setdefault("fn_memo", {})
+        if key not in memo:
+            arr = fresh("comp", z3.ArraySort(I, sort_of(es)))
+            memo[key] = arr
+        arr = memo[key]
         self.fact(z3.ForAll([t], z3.Implies(z3.And(0 <= t, t < seq.n), z3.Select(arr, t) == val)))
         return self.alloc(AList(seq.n, arr, es))
 
